@@ -81,6 +81,15 @@ fn gen(rng: &mut Rng, _idx: u64, _tier: Tier) -> Case {
             }
         }
     }
+    // very rarely: hundreds of short sessions in one run (session counters, per-session state)
+    if rng.chance(0.004) {
+        for _ in 0..rng.range(257, 330) {
+            let mut ops = vec![];
+            if rng.chance(0.3) { let t = gen::traffic(rng, &mut acs[..n_ac], 1, d, kinds, false, false, 100_000); ops = gen::ops_of(rng, t, Chunking::Line); }
+            ops.push(Op::Eof { dt_us: 0 });
+            conns.push(Conn::Accept { ops });
+        }
+    }
     // now and then the feed stays down for a long time: a streak of failed attempts (a growing, shrinking or
     // exhausted retry budget shows only here)
     if rng.chance(0.06) {
